@@ -401,6 +401,20 @@ def run(ctx):
     })
 
 
+MUTATION_DRILLS += [
+    {"mutation": "round 4, ascii_composer.cc: `now < toggle_expired_` -> `now <= toggle_expired_` (a tap released exactly 500 ms after the press toggles)",
+     "ran": "scratch worktree of /repo 074aebe: VERIF_REPO=/var/tmp/wt-acdrill VERIF_CACHE=/var/tmp/rime-verif-acdrill bin/check C02 quick",
+     "fired": "VIOLATION no-failing-input-found: correspondence:synth (synth_ascii_* histories with `tick 500` between press and release differ from the "
+              "model); the translated constant ascii_window_strict (gen/eng_facts.py) makes C01_ascii_composer_source_constants fail as well. "
+              "Not a clause of C02: no failing input exists for the property itself"},
+    {"mutation": "round 4, ascii_composer.cc SwitchAsciiMode: commit_code no longer calls ClearNonConfirmedComposition before Commit",
+     "ran": "same", "fired": "VIOLATION no-failing-input-found: correspondence:synth (the converted text is committed where the model commits the code)"},
+    {"mutation": "round 4, ascii_segmentor.cc: `j < input.length()` -> `j + 1 < input.length()` (a single trailing character gets no raw segment)",
+     "ran": "same", "fired": "VIOLATION no-failing-input-found: correspondence:synth"},
+    {"mutation": "round 4, ascii_composer.cc ProcessCapsLock: lower-case letters typed with Caps Lock on are committed unswapped",
+     "ran": "same", "fired": "VIOLATION no-failing-input-found: correspondence:synth (commit text differs)"},
+]
+
 MANIFEST = {
     "category": "proof",
     "technique": "Coq inductive invariant over the session-engine model (all API ops, arbitrary arguments; source facts and key maps "
